@@ -5,6 +5,7 @@ use std::io::{self, BufRead, Write};
 use std::panic;
 
 mod adjustable;
+mod csm;
 mod causal;
 mod collections;
 mod context;
@@ -14,6 +15,7 @@ mod ugraph;
 fn run_case(fam: &str, args: &[i128]) -> Vec<i128> {
     match fam {
         "adjustable" => adjustable::run(args),
+        "csm" => csm::run(args),
         "causal" => causal::run(args, 1),
         f if f.starts_with("causal_") => causal::run(args, f[7..].parse().unwrap()),
         "collections" => collections::run(args),
